@@ -22,7 +22,7 @@ SCOPE_VALUES = [None, True, False]     # selector 0 = no scope, 1..3 = these
 
 def _snapshot(root):
   nodes = T.nodes_of(root)
-  return (pg.to_json(root), [(id(n), n.is_sealed, n.accessor_writable) for n in nodes])
+  return (T.snap(root), [(id(n), n.is_sealed, n.accessor_writable) for n in nodes])
 
 
 def _obj_accessor_writable(node):
@@ -54,7 +54,7 @@ def _effective(selectors, object_flag):
   return object_flag if v is None else v
 
 
-def _check_one(params, root, p, t, i, sealed, acc_off, sel_seal, sel_acc, w, tagp):
+def _check_one(params, root, p, t, i, sealed, acc_off, sel_seal, sel_acc, w, tagp, seal_under=0):
   nodes = T.nodes_of(root)
   if not (0 <= p < len(nodes) and 0 <= t < len(nodes)):
     raise Assume()
@@ -64,7 +64,9 @@ def _check_one(params, root, p, t, i, sealed, acc_off, sel_seal, sel_acc, w, tag
   op = params['op']
   prot = nodes[p]
   if sealed:
-    prot.seal(True)
+    # the seal() call itself may be made inside a scoped override (which must not change what it does to the object)
+    with (pg.as_sealed(SCOPE_VALUES[seal_under - 1]) if seal_under else contextlib.nullcontext()):
+      prot.seal(True)
     reach('seal_deep')
     for n in T.nodes_of(prot):
       if not n.is_sealed:
@@ -120,7 +122,8 @@ def _check_one(params, root, p, t, i, sealed, acc_off, sel_seal, sel_acc, w, tag
       return Violation(f'allowed_write_refused:{op}:{cls}', f'target {target.sym_path}; scopes seal={sel_seal} acc={sel_acc} '
                        f'object sealed={target.is_sealed}')
   if sealed:
-    prot.seal(False)
+    with (pg.as_sealed(SCOPE_VALUES[seal_under - 1]) if seal_under else contextlib.nullcontext()):
+      prot.seal(False)
     for n in T.nodes_of(prot):
       if n.is_sealed:
         return Violation('unseal_does_not_reach_descendant', str(n.sym_path))
@@ -128,7 +131,7 @@ def _check_one(params, root, p, t, i, sealed, acc_off, sel_seal, sel_acc, w, tag
 
 
 _ARGS = [('v0', 'int'), ('v1', 'int'), ('v2', 'int'), ('v3', 'int'), ('p', 'int'), ('t', 'int'), ('i', 'int'),
-         ('sealed', 'bool'), ('acc_off', 'bool'), ('w', 'int')]
+         ('sealed', 'bool'), ('acc_off', 'bool'), ('w', 'int'), ('su', 'int')]
 
 
 def _select_target(params, t, i):
@@ -142,16 +145,17 @@ def _select_target(params, t, i):
   return t, concretize(i, range(-n - 1, n + 2)), len(nodes)
 
 
-def h_flags(params, v0, v1, v2, v3, p, t, i, sealed, acc_off, w):
+def h_flags(params, v0, v1, v2, v3, p, t, i, sealed, acc_off, w, su=0):
   """Selectors are solver decisions made concrete by branching; the guarded call and the oracle run natively."""
   sealed, acc_off = bool(sealed), bool(acc_off)
   if not (sealed or acc_off):
     raise Assume()
+  su = concretize(su, params.get('su', (0, 1, 2, 3))) if sealed else 0
   t, i, nn = _select_target(params, t, i)
   p = concretize(p, range(nn))
   with untraced():
     root = T.SKELETONS[params['skel']]((1, 2, 3, 4))
-    return _check_one(params, root, p, t, i, sealed, acc_off, (0, 0), (0, 0), 50, '')
+    return _check_one(params, root, p, t, i, sealed, acc_off, (0, 0), (0, 0), 50, '', su)
 
 
 def h_scopes(params, v0, v1, v2, v3, t, i, sealed, acc_off, s1, s2, a1, a2, w):
@@ -174,8 +178,10 @@ def shards(tier, seed):
   skels = ['list', 'dict', 'obj', 'mixed'] if quick else list(T.SKELETONS)
   for skel in skels:
     for op in T.MUTATING:
-      out.append(dict(name=f'flags:{skel}:{op}', fn='h_flags', params=dict(skel=skel, op=op), args=_ARGS,
-                      budget_s=b, per_path_s=15))
+      if not T.op_fits(op, skel):
+        continue
+      out.append(dict(name=f'flags:{skel}:{op}', fn='h_flags', params=dict(skel=skel, op=op, su=(0, 2) if quick else (0, 1, 2, 3)),
+                      args=_ARGS, budget_s=b, per_path_s=15))
       if not quick:
         out.append(dict(name=f'flags_subtree:{skel}:{op}', fn='h_flags', params=dict(skel=skel, op=op, vkind='subtree'),
                         args=_ARGS, budget_s=b, per_path_s=15))
@@ -183,6 +189,8 @@ def shards(tier, seed):
            ('acc_off', 'bool'), ('s1', 'int'), ('s2', 'int'), ('a1', 'int'), ('a2', 'int'), ('w', 'int')]
   for skel in (['dict', 'obj'] if quick else skels):
     for op in (SCOPE_OPS if quick else T.MUTATING):
+      if not T.op_fits(op, skel):
+        continue
       out.append(dict(name=f'scopes:{skel}:{op}', fn='h_scopes', params=dict(skel=skel, op=op), args=sargs,
                       budget_s=b, per_path_s=15))
   return out
